@@ -622,6 +622,15 @@ const vreYang2 = `module vrpresence {
       leaf id { type string; }
       leaf cost { type uint32; must "../../settings/mode = 'manual'"; }
     }
+    list rev {
+      key "zone id";
+      leaf zone { type string; }
+      leaf id { type string; }
+      leaf val { type string; }
+    }
+    leaf rev-id { type string; }
+    leaf rev-zone { type string; }
+    leaf rev-ref { type leafref { path "../rev[id=current()/../rev-id][zone=current()/../rev-zone]/val"; } }
   }
   container dr {
     leaf on { type string; }
@@ -1181,6 +1190,75 @@ func TestVerifReplayNestedChoice(t *testing.T) {
 			}
 		}
 	}
+	// a case with two members (container cons/mcase: case y { y1 y2 }, case z { z1 }): when the winning case changes,
+	// every member of the former case goes, whoever holds it: another intent, or the device on its own
+	for _, sc := range []struct {
+		name            string
+		stored, onlyDev []string // members of case y the stored intent@10 holds / the device holds on its own
+	}{
+		{"the stored intent holds y1, the device runs y2 on its own", []string{"y1"}, []string{"y2"}},
+		{"the stored intent holds y1 and y2", []string{"y1", "y2"}, nil},
+		{"the stored intent holds y2, the device runs y1 on its own", []string{"y2"}, []string{"y1"}},
+	} {
+		n++
+		ctx := context.Background()
+		mockCtrl := gomock.NewController(t)
+		scb := vreSchema2(t, mockCtrl)
+		var stored, running []*cache.Update
+		device := map[string]string{}
+		for _, m := range sc.stored {
+			stored = append(stored, cache.NewUpdate([]string{"cons", "mcase", m}, str("v"+m), 10, "stored", 0))
+		}
+		for _, m := range append(append([]string{}, sc.stored...), sc.onlyDev...) {
+			running = append(running, cache.NewUpdate([]string{"cons", "mcase", m}, str("v"+m), RunningValuesPrio, RunningIntentName, 0))
+			device["cons/mcase/"+m] = "v" + m
+		}
+		ccMock := mockcacheclient.NewMockClient(mockCtrl)
+		testhelper.ConfigureCacheClientMock(t, ccMock, stored, running, []*cache.Update{}, [][]string{})
+		root, err := NewTreeRoot(ctx, NewTreeContext(NewTreeCacheClient("dev1", ccMock), scb, "new"))
+		if err != nil {
+			t.Fatal(err)
+		}
+		fNew, fExisting := NewUpdateInsertFlags(), NewUpdateInsertFlags()
+		fNew.SetNewFlag()
+		if _, err := root.AddCacheUpdateRecursive(ctx, cache.NewUpdate([]string{"cons", "mcase", "z1"}, str("vz1"), 5, "new", 0), fNew); err != nil {
+			t.Fatal(err)
+		}
+		// (as in a transaction: the device's values are in the tree; the stored intent does not share a path with the new
+		// one, it is known from the index of the intended store only)
+		for _, u := range running {
+			if _, err := root.AddCacheUpdateRecursive(ctx, u, fExisting); err != nil {
+				t.Fatal(err)
+			}
+		}
+		root.FinishInsertionPhase(ctx)
+		dels, err := root.ToProtoDeletes(ctx)
+		if err != nil {
+			t.Fatal(err)
+		}
+		for _, d := range dels {
+			dp := utils.ToXPath(d, false)
+			for k := range device {
+				if k == dp || strings.HasPrefix(k, dp+"/") {
+					delete(device, k)
+				}
+			}
+		}
+		upds, err := root.ToProtoUpdates(ctx, true)
+		if err != nil {
+			t.Fatal(err)
+		}
+		for _, u := range upds {
+			device[utils.ToXPath(u.GetPath(), false)] = u.GetValue().GetStringVal()
+		}
+		want := map[string]string{"cons/mcase/z1": "vz1"}
+		if fmt.Sprint(device) != fmt.Sprint(want) {
+			for _, fn := range append([]string{"(*tree.sharedEntryAttributes).getRegularDeletes"}, fns...) {
+				fmt.Printf("REPLAY-FAIL fn=%s clause=every_member_of_the_former_case_is_walked input=schema=case with two members,new intent@5 sets case z,%s why=the device is left with %v, the case of the better priority is %v\n", fn, sc.name, device, want)
+			}
+		}
+		mockCtrl.Finish()
+	}
 	// a choice directly in a list: the case members are children of the key-level entry, the resolvers sit on the list
 	{
 		type sc struct {
@@ -1319,6 +1397,8 @@ func TestVerifReplaySchema2Validation(t *testing.T) {
 		{"must '../../settings/mode' below an entry with two keys, satisfied", []string{"(*tree.yangParserEntryAdapter).Navigate"}, []pv{{[]string{"mk", "settings", "mode"}, str("manual")}, {[]string{"mk", "area", "a", "z", "id"}, str("a")}, {[]string{"mk", "area", "a", "z", "zone"}, str("z")}, {[]string{"mk", "area", "a", "z", "cost"}, u(5)}}, true, ""},
 		{"must '../../settings/mode' below an entry with two keys, violated", []string{"(*tree.yangParserEntryAdapter).Navigate"}, []pv{{[]string{"mk", "settings", "mode"}, str("auto")}, {[]string{"mk", "area", "a", "z", "id"}, str("a")}, {[]string{"mk", "area", "a", "z", "zone"}, str("z")}, {[]string{"mk", "area", "a", "z", "cost"}, u(5)}}, false, ""},
 		{"must '../../../settings/mode' from a container of an entry with two keys, satisfied", []string{"(*tree.yangParserEntryAdapter).Navigate"}, []pv{{[]string{"mk", "settings", "mode"}, str("manual")}, {[]string{"mk", "area", "a", "z", "id"}, str("a")}, {[]string{"mk", "area", "a", "z", "zone"}, str("z")}, {[]string{"mk", "area", "a", "z", "timers", "hello"}, u(5)}}, true, ""},
+		{"leafref with two key predicates into a list whose key statement is not in alphabetical order, target exists", []string{"(*tree.sharedEntryAttributes).FilterChilds", "(*tree.sharedEntryAttributes).NavigateLeafRef"}, []pv{{[]string{"mk", "rev", "i1", "z1", "id"}, str("i1")}, {[]string{"mk", "rev", "i1", "z1", "zone"}, str("z1")}, {[]string{"mk", "rev", "i1", "z1", "val"}, str("v")}, {[]string{"mk", "rev-id"}, str("i1")}, {[]string{"mk", "rev-zone"}, str("z1")}, {[]string{"mk", "rev-ref"}, str("v")}}, true, ""},
+		{"the same with the key values of the reference exchanged: no such entry", []string{"(*tree.sharedEntryAttributes).FilterChilds", "(*tree.sharedEntryAttributes).NavigateLeafRef"}, []pv{{[]string{"mk", "rev", "i1", "z1", "id"}, str("i1")}, {[]string{"mk", "rev", "i1", "z1", "zone"}, str("z1")}, {[]string{"mk", "rev", "i1", "z1", "val"}, str("v")}, {[]string{"mk", "rev-id"}, str("z1")}, {[]string{"mk", "rev-zone"}, str("i1")}, {[]string{"mk", "rev-ref"}, str("v")}}, false, ""},
 		{"must '../../settings/mode' below an entry with one key, satisfied", []string{"(*tree.yangParserEntryAdapter).Navigate"}, []pv{{[]string{"mk", "settings", "mode"}, str("manual")}, {[]string{"mk", "one", "a", "id"}, str("a")}, {[]string{"mk", "one", "a", "cost"}, u(5)}}, true, ""},
 		{"must '../../settings/mode' below an entry with one key, violated", []string{"(*tree.yangParserEntryAdapter).Navigate"}, []pv{{[]string{"mk", "settings", "mode"}, str("auto")}, {[]string{"mk", "one", "a", "id"}, str("a")}, {[]string{"mk", "one", "a", "cost"}, u(5)}}, false, ""},
 		{"must '. > 5' on a uint32 of 10", nil, []pv{{[]string{"val", "usize"}, u(10)}}, true, ""},
